@@ -76,8 +76,7 @@ def _p1_function(f: Func, res: RuleResult, orig_vars: Set[str], extra_flags: Lis
         if isinstance(n, ast.Assign) and len(n.targets) == 1 and isinstance(n.targets[0], ast.Name) \
                 and norm(n.value) in temporal_tests:
             alias[n.targets[0].id] = True
-    if not temporal_tests and not extra_flags:
-        raise AnalysisError(f"P1: no temporal test found in {f.qualname}")
+    # no recognised temporal test: every returning path is examined (a function that never restores is a violation)
     paths = enumerate_paths(f.node.body)
     n_paths = 0
     for flags0 in (extra_flags or [{}]):
@@ -113,14 +112,49 @@ def _p1_function(f: Func, res: RuleResult, orig_vars: Set[str], extra_flags: Lis
     return n_paths
 
 
+def _orig_dtype_vars(f: Func) -> Set[str]:
+    """names bound to the original-dtype component returned by _cast_timestamps_to_ints:
+    `x, orig = _cast_timestamps_to_ints(a)`; `vals, origs = zip(*list(map(_cast_timestamps_to_ints, vals)))`;
+    `orig = origs[0]` (closed under subscripting / plain copies)."""
+    out: Set[str] = set()
+
+    def mentions_cast(e) -> bool:
+        return any(isinstance(n, ast.Name) and n.id == "_cast_timestamps_to_ints" for n in ast.walk(e))
+
+    for n in walk_no_nested(f.node):
+        if isinstance(n, ast.Assign) and len(n.targets) == 1 and isinstance(n.targets[0], ast.Tuple) \
+                and len(n.targets[0].elts) == 2 and isinstance(n.targets[0].elts[1], ast.Name) and mentions_cast(n.value):
+            out.add(n.targets[0].elts[1].id)
+    changed = True
+    while changed:
+        changed = False
+        for n in walk_no_nested(f.node):
+            if isinstance(n, ast.Assign) and len(n.targets) == 1 and isinstance(n.targets[0], ast.Name):
+                v = n.value
+                while isinstance(v, ast.Subscript):
+                    v = v.value
+                if isinstance(v, ast.Name) and v.id in out and n.targets[0].id not in out:
+                    out.add(n.targets[0].id)
+                    changed = True
+    return out
+
+
 def rule_P1(repo: Repo) -> RuleResult:
     res = RuleResult("P1", "temporal values cast to int64 are restored to their dtype on every returning path")
     nb = repo.mod(NB)
     total = 0
-    total += _p1_function(nb.func("_group_func_wrap"), res, {"orig_type"}, [])
-    total += _p1_function(nb.func("group_mean"), res, {"orig_type"}, [])
-    total += _p1_function(nb.func("_apply_rolling"), res, {"orig_dtype"}, [])
-    total += _p1_function(nb.func("_apply_cumulative"), res, {"orig_dtype"}, [])
+    casting = []
+    for f in repo.all_functions():
+        if f.name == "_cast_timestamps_to_ints":
+            continue
+        ov = _orig_dtype_vars(f)
+        if ov:
+            casting.append(f.qualname)
+            total += _p1_function(f, res, ov, [])
+    res.analysed = {"functions_casting_timestamps": casting}
+    if len(casting) < 4:
+        raise AnalysisError(f"P1: only {len(casting)} functions obtain (ints, original dtype) from _cast_timestamps_to_ints "
+                            f"(confirmed floor 4): {casting}")
     r1 = repo.func("nanops", "reduce_1d")
     total += _p1_function(r1, res, set(), [
         {"is_datetime": True, "is_timedelta": False, "is_count": False},
@@ -132,7 +166,7 @@ def rule_P1(repo: Repo) -> RuleResult:
         if v.key() not in seen:
             seen.add(v.key()); uniq.append(v)
     res.violations = uniq
-    res.analysed = {"temporal_return_paths": total}
+    res.analysed["temporal_return_paths"] = total
     if total < 10:
         raise AnalysisError(f"P1: only {total} temporal return paths enumerated (floor 10)")
     return res
@@ -270,8 +304,9 @@ def rule_P3(repo: Repo) -> RuleResult:
     f, _ = _red_paths(repo)
     defs = [n for n in walk_no_nested(f.node) if isinstance(n, ast.Assign)
             and any(isinstance(t, ast.Name) and t.id == "observed" for t in n.targets)]
-    if len(defs) < 3:
-        raise AnalysisError(f"P3: only {len(defs)} definitions of 'observed' found (floor 3)")
+    if len(defs) < 1:
+        raise AnalysisError("P3: the observed-label filter of _apply_gb_reduction is no longer recognised "
+                            "(no assignment to 'observed')")
     kinds = {}
     for d in defs:
         v = d.value
@@ -294,12 +329,20 @@ def rule_P3(repo: Repo) -> RuleResult:
         if isinstance(n, ast.If) and "observed.all()" in norm(n.test):
             recount = n
     if recount is None:
-        raise AnalysisError("P3: recount branch (not observed.all()) not found")
+        res.bad(f, defs[0], "observed filter without recount: " + norm(defs[0]),
+                "the observed labels are derived from the value counts only: there is no branch that recounts the keys when some "
+                "value count is zero, so a group whose values are all null disappears from the result instead of "
+                "reporting the neutral value")
+        return res
     t = norm(recount.test)
     if "!= 'size'" not in t and '!= "size"' not in t:
         res.bad(f, recount, "recount guard: " + t, "the recount must be skipped exactly for size (whose counts are key counts)")
     inner_defs = [n for n in ast.walk(recount) if isinstance(n, ast.Assign)
                   and any(isinstance(x, ast.Name) and x.id == "observed" for x in n.targets)]
+    if not inner_defs:
+        res.bad(f, recount, "recount branch: " + t,
+                "the branch taken when some value count is zero no longer recomputes the observed labels from the key "
+                "counts: a group whose values are all null disappears from the result")
     for d in inner_defs:
         src = norm(d.value)
         under_mask = None
